@@ -1,10 +1,204 @@
-(* C05 — Fragmented samples are reassembled byte-identically for any size. *)
+(* C05 — Fragmented samples are reassembled byte-identically for any size.
+   Statements over the model Proto/FragModel.v (as_data_frag_submessage, the writer's fragment
+   emission and NACK_FRAG / ACKNACK answers, RtpsWriterProxy push / total_fragments_expected /
+   reconstruct_data_from_frag / NACK_FRAG generation, RtpsStatefulReader::on_data_frag_submessage).
+   Positive half: byte identity for all payloads, all fragment sizes 1..65535, all arrival orders,
+   duplications, losses and interleavings.  Negative half (the `lost (reliable)` clause and the
+   NACK_FRAG numbering are FALSE on the code as it is): universal refutations + witnesses. *)
 From DustDDS Require Import Base.Machine Proto.FragModel Proto.FragProofs.
+From Coq Require Import Sorted.
 Open Scope Z_scope.
+
+(* ------------------------------------------------------------------ writer side *)
 
 Theorem C05_concat_of_fragments_is_payload :
   forall (p : bytes) f, 0 < f ->
     concat (map (fun i => slice p (i * f) (Z.min ((i + 1) * f) (blen p))) (zseq (div_ceil (blen p) f))) = p.
 Proof. exact concat_frags. Qed.
 
+(* a payload not larger than f goes out as one DATA; a larger one as ceil(len/f) DATA_FRAGs numbered
+   1, 2, ... each announcing (f, len), each f bytes long but the last, concatenating to the payload *)
+Theorem C05_writer_emits_numbered_fragments :
+  forall rid f sn p, 0 < f < 65536 -> blen p < two32 ->
+    (blen p <= f -> send_change rid f sn p = Ok [WData rid sn p]) /\
+    (f < blen p ->
+       exists frs, send_change rid f sn p = Ok (map WFrag frs) /\
+         Z.of_nat (length frs) = div_ceil (blen p) f /\
+         concat (map fr_data frs) = p /\
+         forall k fr, nth_error frs k = Some fr ->
+           fr_rid fr = rid /\ fr_sn fr = sn /\ fr_start fr = Z.of_nat k + 1 /\ fr_nsub fr = 1 /\
+           fr_fsize fr = f /\ fr_dsize fr = blen p /\
+           blen (fr_data fr) = Z.min f (blen p - Z.of_nat k * f)).
+Proof. exact send_change_spec. Qed.
+
+(* the reader's total_fragments_expected of any genuine fragment is ceil(len/f) *)
+Theorem C05_expected_count_is_ceil :
+  forall rid f sn p i, 0 < f < 65536 -> blen p < two32 -> 0 <= i < div_ceil (blen p) f ->
+    total_fragments_expected (mk_data_frag rid sn p f i) = Ok (div_ceil (blen p) f) /\
+    blen p <= div_ceil (blen p) f * f /\ (div_ceil (blen p) f - 1) * f < blen p.
+Proof. exact expected_count_is_ceil. Qed.
+
+(* ------------------------------------------------------------------ RtpsWriterProxy level *)
+
+(* l: ANY list of received DATA_FRAGs in which everything that speaks for sn is a fragment of p
+   (so: any permutation, any duplication, interleaved with fragments of any other sequence numbers).
+   If every fragment of p occurs in l, reconstruct returns exactly p and removes sn's fragments. *)
+Theorem C05_reassemble_any_order :
+  forall f rid sn (p : bytes) (l : list frag),
+    0 < f < 65536 -> blen p < two32 -> 1 <= div_ceil (blen p) f ->
+    (forall x, In x l -> fr_sn x = sn -> exists i, 0 <= i < div_ceil (blen p) f /\ x = mk_data_frag rid sn p f i) ->
+    (forall i, 0 <= i < div_ceil (blen p) f -> In (mk_data_frag rid sn p f i) l) ->
+    reconstruct (fold_left push_frag l []) sn =
+      Ok (Some p, filter (fun x => negb (has_sn sn x)) (fold_left push_frag l [])).
+Proof. exact C05_reassemble_any_order_stmt. Qed.
+
+(* ... and from an incomplete set it returns nothing, never a wrong payload, never a panic *)
+Theorem C05_incomplete_set_gives_nothing :
+  forall f rid sn (p : bytes) (l : list frag),
+    0 < f < 65536 -> blen p < two32 ->
+    (forall x, In x l -> fr_sn x = sn -> exists i, 0 <= i < div_ceil (blen p) f /\ x = mk_data_frag rid sn p f i) ->
+    ~ (forall i, 0 <= i < div_ceil (blen p) f -> In (mk_data_frag rid sn p f i) l) ->
+    reconstruct (fold_left push_frag l []) sn = Ok (None, fold_left push_frag l []).
+Proof. exact C05_incomplete_stmt. Qed.
+
+Theorem C05_never_a_wrong_payload :
+  forall f rid sn (p : bytes) (l : list frag) d b',
+    0 < f < 65536 -> blen p < two32 ->
+    (forall x, In x l -> fr_sn x = sn -> exists i, 0 <= i < div_ceil (blen p) f /\ x = mk_data_frag rid sn p f i) ->
+    reconstruct (fold_left push_frag l []) sn = Ok (Some d, b') -> d = p.
+Proof. exact C05_never_wrong_stmt. Qed.
+
+(* ------------------------------------------------------------------ whole system, all histories *)
+
+(* For EVERY history of the fault-schedule language (writes; deliveries of the writer's datagrams in
+   any order, any number of times, any subset; heartbeats; the reader's ACKNACK / NACK_FRAG fed to
+   the writer and the answers delivered; forged NACK_FRAGs), with a reliable or best-effort reader:
+   the reader only ever holds the payload that was written under that sequence number, each sequence
+   number at most once, in increasing order.  op_ok excludes hand-made fragments and fragments
+   addressed to another reader (known finding C05-mixed-readerid-truncation). *)
+Theorem C05_delivered_changes_are_byte_identical :
+  forall rel nreaders f ops s obs,
+    0 < f < 65536 -> Forall op_ok ops -> run (s_init rel nreaders f) ops = Ok (s, obs) ->
+    StronglySorted Z.lt (map fst (r_changes (s_r s))) /\
+    forall sn d, In (sn, d) (r_changes (s_r s)) -> nth_written (written ops) sn = Some d.
+Proof. exact delivered_identical. Qed.
+
+(* RELIABLE reader expecting sample sn: as soon as every fragment has arrived — any order, any
+   duplication, interleaved with any other genuine traffic — it holds (sn, p). *)
+Theorem C05_complete_set_is_delivered :
+  forall f ch sn p r ws,
+    0 < f < 65536 -> history_ok ch -> lookup sn ch = Some p ->
+    rinv f ch r -> r_rel r = true -> available_changes_max r + 1 = sn ->
+    ~ complete f 1 (r_buf r) sn p ->
+    Forall (wire_genuine f ch) ws ->
+    (forall i, 0 <= i < div_ceil (blen p) f -> In (WFrag (mk_data_frag 1 sn p f i)) ws) ->
+    exists r', r_deliver_all r ws = Ok r' /\ In (sn, p) (r_changes r').
+Proof. exact C05_complete_set_stmt. Qed.
+
+(* ------------------------------------------------------------------ repair: FALSE on this code *)
+
+(* `nackfrag_not_filtered` is false: in every history the reader's nack_frag_count stays 0, every
+   NACK_FRAG it emits carries count 0, and the writer answers each of them with nothing *)
+Theorem C05_nackfrag_is_always_filtered :
+  forall rel nreaders f ops s obs,
+    run (s_init rel nreaders f) ops = Ok (s, obs) ->
+    r_nfcount (s_r s) = 0 /\
+    Forall2 (fun o b => (o = ONackFrag -> exists n, b = BResp [] n) /\
+                        (forall a nf, b = BReply (Some (a, Some nf)) -> n_count nf = 0)) ops obs.
+Proof. exact nackfrag_always_filtered. Qed.
+
+(* the `lost (reliable)` clause is false: once fragment j >= 1 (0-based) of sample sn is lost in the
+   first transmission, no continuation (other deliveries, heartbeats, ACKNACK and NACK_FRAG rounds,
+   further writes) ever gives the reader sample sn *)
+Theorem C05_lost_fragment_is_never_repaired :
+  forall rel nreaders f ps ops sn j p s obs,
+    0 < f < 65536 -> Forall (fun q => blen q < two32) ps ->
+    nth_written ps sn = Some p -> 1 <= j < div_ceil (blen p) f ->
+    Forall op_ok ops -> Forall (lost_op sn j) ops ->
+    run (s_init rel nreaders f) (map OWrite ps ++ ops) = Ok (s, obs) ->
+    ~ In sn (map fst (r_changes (s_r s))).
+Proof. exact lost_fragment_never_repaired. Qed.
+
+(* `nackfrag_numbering` is false: a NACK_FRAG that passes the filter is answered with the fragments
+   whose wire number is (requested number + 1) *)
+Theorem C05_nackfrag_resends_successor :
+  forall w count sn base set p,
+    0 < w_f w < 65536 -> blen p < two32 -> w_rel w = true -> w_last_nf w < count ->
+    lookup sn (w_changes w) = Some p ->
+    0 <= base -> Forall (fun k => 0 <= k) set ->
+    exists w' ws, w_on_nack_frag w count sn base set = Ok (w', ws) /\
+      ws = map (fun k => WFrag (mk_data_frag 1 sn p (w_f w) k))
+               (filter (fun k => k <? div_ceil (blen p) (w_f w)) (base :: set)) /\
+      forall fr, In (WFrag fr) ws ->
+        exists k, In k (base :: set) /\ k < div_ceil (blen p) (w_f w) /\ fr_start fr = k + 1.
+Proof. exact nackfrag_resends_successor. Qed.
+
+Theorem C05_nackfrag_never_resends_the_requested_fragment :
+  forall w count sn n p,
+    0 < w_f w < 65536 -> blen p < two32 -> w_rel w = true -> w_last_nf w < count ->
+    lookup sn (w_changes w) = Some p -> 1 <= n <= div_ceil (blen p) (w_f w) ->
+    exists w' ws, w_on_nack_frag w count sn n [n] = Ok (w', ws) /\
+      (forall fr, In (WFrag fr) ws -> fr_start fr = n + 1) /\
+      (n = div_ceil (blen p) (w_f w) -> ws = []).
+Proof. exact nackfrag_never_resends_requested. Qed.
+
+(* ------------------------------------------------------------------ the known classes are inhabited *)
+
+Theorem C05_witness_nackfrag_count_zero :
+  exists s ack, run (s_init true 1 8) [OWrite p21; ODeliver 1 0 1; ODeliver 1 2 1; OHb 1 1 1 false; ONackFrag] =
+    Ok (s, [BSent [WFrag (mk_data_frag 1 1 p21 8 0); WFrag (mk_data_frag 1 1 p21 8 1); WFrag (mk_data_frag 1 1 p21 8 2)];
+            BCount 0; BCount 0; BReply (Some (ack, Some (mkNf 1 2 [2] 0))); BResp [] 0]) /\
+    r_changes (s_r s) = [].
+Proof. exact witness_count_zero. Qed.
+
+Theorem C05_witness_nackfrag_off_by_one :
+  exists w', w_on_nack_frag (mkW 8 true 1 [(1, p21)] 0 0) 1 1 2 [2] =
+    Ok (w', [WFrag (mk_data_frag 1 1 p21 8 2); WFrag (mk_data_frag 1 1 p21 8 2)]) /\
+    fr_start (mk_data_frag 1 1 p21 8 2) = 3.
+Proof. exact witness_off_by_one. Qed.
+
+Theorem C05_witness_fragment_size_zero_panics :
+  run (s_init true 1 8) [OForeign (mkfrag 1 1 1 1 0 21 [1; 2])] = Panic 28.
+Proof. exact witness_fragsize_zero. Qed.
+
+Theorem C05_witness_nackfrag_bitmap_overflow :
+  run (s_init true 1 8) [OWrite (repeat 7 2400); ODeliver 1 0 1; OHb 1 1 1 false] = Panic 123.
+Proof. exact witness_bitmap_overflow. Qed.
+
+Theorem C05_witness_mixed_readerid_truncates :
+  exists s obs, run (s_init true 2 8) [OWrite p29; ODeliver 1 0 1; ODeliver 1 1 1; ODeliver 1 0 2; ODeliver 1 1 2] =
+    Ok (s, obs) /\ r_changes (s_r s) = [(1, firstn 16 p29)] /\ firstn 16 p29 <> p29.
+Proof. exact witness_mixed_readerid. Qed.
+
+(* non-vacuity: a concrete reordered, duplicated, interleaved schedule of two samples meets the
+   hypotheses of C05_delivered_changes_are_byte_identical and delivers both *)
+Example C05_nonvacuous :
+  exists s obs, run (s_init true 1 8)
+    [OWrite p21; OWrite p29; ODeliver 2 1 1; ODeliver 1 2 1; ODeliver 1 0 1; ODeliver 1 2 1; ODeliver 2 0 1;
+     ODeliver 1 1 1; ODeliver 2 3 1; ODeliver 2 1 1; ODeliver 2 0 1; ODeliver 2 2 1] = Ok (s, obs) /\
+    r_changes (s_r s) = [(1, p21); (2, p29)].
+Proof. exact example_reordered. Qed.
+
+Example C05_nonvacuous_reassemble :
+  reconstruct (fold_left push_frag
+     [mk_data_frag 1 1 p21 8 2; mk_data_frag 1 2 p29 8 0; mk_data_frag 1 1 p21 8 0; mk_data_frag 1 1 p21 8 2;
+      mk_data_frag 1 1 p21 8 1] []) 1 = Ok (Some p21, [mk_data_frag 1 2 p29 8 0]).
+Proof. exact example_reassemble. Qed.
+
 Print Assumptions C05_concat_of_fragments_is_payload.
+Print Assumptions C05_writer_emits_numbered_fragments.
+Print Assumptions C05_expected_count_is_ceil.
+Print Assumptions C05_reassemble_any_order.
+Print Assumptions C05_incomplete_set_gives_nothing.
+Print Assumptions C05_never_a_wrong_payload.
+Print Assumptions C05_delivered_changes_are_byte_identical.
+Print Assumptions C05_complete_set_is_delivered.
+Print Assumptions C05_nackfrag_is_always_filtered.
+Print Assumptions C05_lost_fragment_is_never_repaired.
+Print Assumptions C05_nackfrag_resends_successor.
+Print Assumptions C05_nackfrag_never_resends_the_requested_fragment.
+Print Assumptions C05_witness_nackfrag_count_zero.
+Print Assumptions C05_witness_nackfrag_off_by_one.
+Print Assumptions C05_witness_fragment_size_zero_panics.
+Print Assumptions C05_witness_nackfrag_bitmap_overflow.
+Print Assumptions C05_witness_mixed_readerid_truncates.
